@@ -5,6 +5,9 @@ implementation : /repo's libawkward through impl/drv/typedrv (Content::type/form
 model          : c17/coq (Forms.v, TypeStr.v, Typing.v) extracted -> .build/c17/typerun
 third voter    : /repo/src/awkward/_typeparser (Lark stand-alone parser, pure Python) with stand-ins for the
                  awkward.types classes of the unbuildable pybind11 extension (c17/tools/larkvote.py)
+parser model   : c17/coq/Lark.v (lark_parse: Gallina model of from_datashape = grammar + toast, the subject of the
+                 lark_* theorems) is run (typerun op larkparse) on every string the repository's parser is run on and on
+                 a stream of strings built from the grammar; the two object trees are compared (corr:lark-model)
 """
 import fcntl
 import json
@@ -192,6 +195,7 @@ COQ_LOGICAL = '-R %s/coq AwkV -R . AwkTypes' % C.VERIF
 B17 = os.path.join(C.BUILD, 'c17')
 CORPUS = os.path.join(C.VERIF, 'corpus', 'C17')
 LARK = os.path.join(C.VERIF, 'c17', 'tools', 'larkvote.py')
+LARK_STRINGS = os.path.join(C.VERIF, 'c17', 'tools', 'lark_strings.txt')
 
 RULE = ('describe: value-first random layouts (all node classes, widths, option encodings, strings, n-d NumpyArray, record '
         'names incl. reserved words, categorical) x typestrs (none | string/bytes/char/byte | + a custom record typestr); '
@@ -201,8 +205,14 @@ RULE = ('describe: value-first random layouts (all node classes, widths, option 
         'every optional key spelled / omitted / null, has_identifier, extra and duplicate keys, shuffled key order, '
         'whitespace, VirtualArray) and a malformed stream (truncations, wrong class names, missing required keys, wrong '
         'value kinds, conflicting widths, non-primitive names); every printed type string goes to the model\'s '
-        'type_parse and to the repository\'s Lark parser. non-trivial = >= 2 nodes (layouts/forms) and accepted; '
-        'distinct by case text')
+        'type_parse and to the repository\'s Lark parser; lark-grammar: type strings built from type-grammar.lark '
+        '(fixed list c17/tools/lark_strings.txt + random derivations: every type class, parameters= with every JSON value '
+        'kind, categorical[type=...], ?T / option[T] / option[T, parameters=...], record names incl. keywords and keyword '
+        'prefixes, tuples, structs with mismatching lengths, regular sizes incl. 0 / negative / non-integers, unknown, '
+        'nested unions, the backslash-apostrophe string form, whitespace variants, int128) and malformed ones (character '
+        'deleted / inserted, truncation, trailing garbage, bad keyword): from_datashape(s, False) and (s, True) against '
+        'the Rocq model lark_parse_full of the parser on these and on every printed type string, compared as object trees. '
+        'non-trivial = >= 2 nodes (layouts/forms/parsed types) and accepted; distinct by case text')
 ASSUMPTIONS = [
     'parameter values are JSON texts in rj::Writer normal form (what Form::fromjson stores; the driver normalises the '
     'parameters it sets); doubles in parameters are limited to a few exactly printable values',
@@ -223,6 +233,19 @@ ASSUMPTIONS = [
     'constructor signatures whose __str__ re-implements the C++ printers; parameters dicts are printed compactly; a type '
     'string counts as brought back if low-level or high-level mode returns a type that prints identically and contains '
     'no ArrayType; strings printed through a user-defined typestr are not sent (from_datashape cannot know them)',
+    'corr:lark-model compares c17/coq/Lark.v with the repository\'s grammar, generated LALR parser, TreeToJson and toast '
+    'as they are, but with the stand-in type classes: the object tree built by toast is compared node by node (class, '
+    'parameters as Python values, typestr, keys, size) with the model\'s rty. Three points are mapped on the harness side: '
+    '(1) an ArrayType(T, n) node is compared with the model\'s parameterless RReg n T plus its "an ArrayType occurs" flag '
+    '(so the stand-in\'s "?3 * T" vs the model\'s "option[3 * T]" printing never enters); (2) a float parameter is the '
+    'Python float on one side and the number\'s text on the other: compared as repr(float(text)); (3) the exceptions of the '
+    'pybind11 constructors that the grammar can trigger are re-implemented in the stand-ins (PrimitiveType("int128"): '
+    'ValueError; RegularType / ArrayType with a float or an int outside int64_t: TypeError; RecordType with keys of '
+    'another length: ValueError) from reading src/python/types.cpp and pybind11\'s integer caster, which cannot be run '
+    'here. Any exception = rejected (exception classes are not compared). One deviation of the model is known and '
+    'counted, not reported (lark_model.deviation:size-beyond-int64): Lark.v accepts "9223372036854775808 * int64" (its '
+    'size is a Z), the constructor refuses it. Type strings are valid UTF-8 (a lone surrogate cannot be cast to '
+    'std::string by pybind11)',
     'the model\'s type_parse covers the fragment `printable` (theorem type_print_parse_roundtrip): no parameters= forms, '
     'no categorical[...]; on the other strings only "prints back identically when it parses" is checked',
     'element typing is checked for the first 8 and the last element; range slices for 9 (start, stop) pairs',
@@ -237,9 +260,11 @@ TRUSTED_BASE = [
     'extraction: ExtrOcamlBasic only, Z/positive/nat inductive; OCaml 4.13.1; readers/printers ocaml/sx.ml, ocaml/rd.ml, '
     'c17/ocaml/typerun.ml (JSON text reader mirroring the shim, result printing)',
     'C++ driver impl/drv/typedrv.cpp + drv_common.h (layout builder)',
-    'generators / comparison / classification in harness/props/c17.py; Lark stand-ins c17/tools/larkvote.py',
+    'generators / comparison / classification in harness/props/c17.py; Lark stand-ins c17/tools/larkvote.py (object-tree '
+    'dump, constructor exceptions); tree printing of the model\'s rty in typerun.ml',
     'RapidJSON substitute impl/rapidjson_shim',
-    'model vs code: c17/coq/*.v are hand-written models of the C++ Form/Type classes; tied by differential testing only',
+    'model vs code: c17/coq/*.v are hand-written models of the C++ Form/Type classes and (Lark.v) of the Python parser; '
+    'tied by differential testing only',
 ]
 
 KNOWN17 = [k for k in C.load_known() if k.get('property') == 'C17']
@@ -614,6 +639,233 @@ def break_form_text(rng, text, stats):
     return 'toplevel', rng.choice(['3', 'null', '[]', '"notatype"', '', '{}', 'true', '{"class":5}'])
 
 
+# ===================================================================== type strings from the grammar (lark-grammar stream)
+LK_PRIMS = ['bool', 'int8', 'int16', 'int32', 'int64', 'uint8', 'uint16', 'uint32', 'uint64', 'float32', 'float64']
+LK_ODD = ['float16', 'float128', 'complex64', 'complex128', 'complex256', 'datetime64', 'timedelta64', 'int128', 'uint128']
+LK_NAMES = ['Name', 'Vec', 'pt', 'Vec3', 'P_1', 'byte', 'union', 'int', 'type', 'null', 'variable', 'Int', 'X', 'stringy',
+            'in', 'parameters', 'parametersX', 'p', 'true', 'categorical', 'tuple', 'structs', 'optional', 'unknown', 'u',
+            'bytesize', 'boolx', 'float', 'uint', 'Z']
+LK_KEYS = ['a', 'b', 'x y', '', 'a\\"b', 'k\\n', '\\u00e9', 'é', '€', '0', 'a:b', '{', ']', ',', "'", '\\t\\r', '\\u12aB', 'a\x01',
+           '\x7f', 'tab\there', '\x0b', '\U0001F600']
+LK_PVALS = ['1', '-2', '0', '-0', '+7', '007', '1.5', '-2.25', '1.50', '.5', '5.', '1.5e3', '1.5E-3', '100.0', '1e30',
+            '12345678901234567890123', '"s"', '""', '"é"', 'null', 'true', 'false', '[1,2]', '[]', '[ ]', '{}', '{ }',
+            '{"q": 1}', '{"q": 1, "r": [null], "q": 2}', '"x\\"y"', '[1, [2, {"a": null}]]', '\\\'', '\\\'v"\\\'',
+            '"\\u0041\\n"', '[true, false, null, "t", 1.0]']
+LK_PKEYS = ['a', 'b', '__array__', '__record__', '__categorical__', 'zz', '', 'é', 'A', 'a"', '__doc__']
+
+
+def lk_params(r):
+    n = r.choice([0, 1, 1, 2, 3])
+    ks = r.sample(LK_PKEYS, n)
+    if n >= 2 and r.random() < 0.15:
+        ks[1] = ks[0]
+    def key(k):
+        return '"%s"' % k.replace('"', '\\"')
+    def val(k):
+        if k == '__categorical__' and r.random() < 0.6:
+            return r.choice(['true', 'false'])
+        if k in ('__array__', '__record__') and r.random() < 0.6:
+            return '"%s"' % r.choice(['string', 'char', 'categorical', 'Name', 'x'])
+        return r.choice(LK_PVALS)
+    sep = r.choice([', ', ', ', ',', ' , '])
+    colon = r.choice([': ', ': ', ':', ' : '])
+    eq = r.choice(['=', '=', ' = '])
+    return 'parameters' + eq + '{' + sep.join(key(k) + colon + val(k) for k in ks) + '}'
+
+
+def lk_size(r):
+    return r.choice(['0', '1', '2', '3', '3', '10', '123', '-1', '+2', '00', '9223372036854775807', '2.5', '3.0', '1e2'])
+
+
+def lk_gen(r, d):
+    if d <= 0 or r.random() < 0.22:
+        c = r.random()
+        if c < 0.5:
+            return r.choice(LK_PRIMS)
+        if c < 0.6:
+            return 'unknown'
+        if c < 0.78:
+            return r.choice(['string', 'bytes', 'char', 'byte'])
+        if c < 0.83:
+            return r.choice(LK_ODD)
+        return r.choice(LK_PRIMS + ['unknown', 'unknown']) + '[' + lk_params(r) + ']'
+    c = r.randrange(19)
+    sub = lambda: lk_gen(r, d - 1)
+    lst = lambda lo=1: ', '.join(sub() for _ in range(r.randint(lo, 3)))
+    flds = lambda lo=1: ', '.join('"%s": %s' % (r.choice(LK_KEYS), sub()) for _ in range(r.randint(lo, 3)))
+    if c == 0:
+        return 'var * ' + sub()
+    if c == 1:
+        return '%s * %s' % (lk_size(r), sub())
+    if c == 2:
+        return '?' + sub()
+    if c == 3:
+        return 'option[' + sub() + ']'
+    if c == 4:
+        return 'union[' + lst(r.choice([0, 1, 1, 2])) + ']'
+    if c == 5:
+        return '(' + lst(r.choice([0, 1, 1])) + ')'
+    if c == 6:
+        return '{' + flds(r.choice([0, 1, 1])) + '}'
+    if c == 7:
+        return r.choice(LK_NAMES) + '[' + flds(r.choice([0, 1, 1])) + ']'
+    if c == 8:
+        return r.choice(LK_NAMES) + '[' + lst() + ']'
+    if c == 9:
+        return '[var * ' + sub() + ', ' + lk_params(r) + ']'
+    if c == 10:
+        return '[%s * %s, %s]' % (lk_size(r), sub(), lk_params(r))
+    if c == 11:
+        return 'option[' + sub() + ', ' + lk_params(r) + ']'
+    if c == 12:
+        return 'union[' + lst() + ', ' + lk_params(r) + ']'
+    if c == 13:
+        return 'tuple[[' + lst(r.choice([0, 1, 1])) + '], ' + lk_params(r) + ']'
+    if c == 14:
+        n = r.randint(0, 3)
+        return ('struct[[' + ', '.join('"%s"' % r.choice(LK_KEYS) for _ in range(n)) + '], ['
+                + ', '.join(sub() for _ in range(n if r.random() < 0.85 else n + 1)) + '], ' + lk_params(r) + ']')
+    if c == 15:
+        return 'categorical[type=' + sub() + ']'
+    if c == 16:
+        return '?' + sub() + '[' + lk_params(r) + ']'
+    if c == 17:
+        return 'union[' + ', '.join('union[' + lst() + ']' for _ in range(r.randint(1, 2))) + ', ' + sub() + ']'
+    return sub()
+
+
+def lk_whitespace(r, s):
+    """spaces around punctuation changed at random (outside quoted strings)"""
+    out, inq, i = [], False, 0
+    while i < len(s):
+        ch = s[i]
+        if inq:
+            out.append(ch)
+            if ch == '\\' and i + 1 < len(s):
+                out.append(s[i + 1])
+                i += 1
+            elif ch == '"':
+                inq = False
+        elif ch == '"':
+            inq = True
+            out.append(ch)
+        elif ch == ' ':
+            out.append(r.choice(['', ' ', ' ', '  ', '\t', '\n', '\r\n', '\x0c']))
+        elif ch in '[](){},:=*?' and r.random() < 0.3:
+            out.append(r.choice([' ', '\t', '\n']) + ch + r.choice(['', ' ']))
+        else:
+            out.append(ch)
+        i += 1
+    return r.choice(['', '', ' ', '\n']) + ''.join(out) + r.choice(['', '', ' ', '\n', '\t \x0c'])
+
+
+def lk_mutate(r, s):
+    c = r.randrange(9)
+    i = r.randrange(len(s) + 1)
+    if c == 0:
+        return 'delete', s[:i] + s[i + 1:]
+    if c == 1:
+        return 'insert', s[:i] + r.choice(' \t[](){},:?*"x1.e=-\\\'\x0b\x00é') + s[i:]
+    if c == 2:
+        return 'trailing', s + r.choice([' ', ']', ',', 'x', '[parameters={}]', '[parameters={"a": 1}]', ')', '}', ' int64',
+                                         '"', '*', ' * int64', '?'])
+    if c == 3:
+        return 'truncate', s[:i]
+    if c == 4:
+        ws = [m for m in re.finditer(r'[a-z]{3,}', s)]
+        if ws:
+            m = r.choice(ws)
+            w = m.group(0)
+            k = r.randrange(len(w))
+            w2 = r.choice([w[:k] + w[k + 1:], w[:k] + w[k].upper() + w[k + 1:], w + r.choice('sx8'), w[:k] + ' ' + w[k:]])
+            return 'keyword', s[:m.start()] + w2 + s[m.end():]
+        return 'trailing', s + 'x'
+    if c == 5:
+        br = [k for k, ch in enumerate(s) if ch in '[](){}']
+        if br:
+            k = r.choice(br)
+            return 'bracket', s[:k] + r.choice(['', '', '[', ']', '(', ')', '{', '}']) + s[k + 1:]
+        return 'trailing', s + ']'
+    if c == 6:
+        return 'swap', s.replace(', ', r.choice([',', ' ', ';', ',,']), 1)
+    if c == 7:
+        return 'quote', s.replace('"', r.choice(["'", '', "\\'"]), 1)
+    return 'whitespace', lk_whitespace(r, s)
+
+
+LK_TOKENS = ['var', '*', '?', 'option', '[', ']', 'union', 'tuple', 'struct', 'unknown', 'categorical', 'type', '=',
+             'parameters', '{', '}', '(', ')', ',', ':', '"a"', '"b"', '3', '0', 'int64', 'bool', 'float64', 'uint8', 'int128',
+             'string', 'bytes', 'byte', 'char', 'Name', 'x', 'true', 'false', 'null', '1.5', '-1', '[]', '{}', '""',
+             'parameters={}', 'parameters={"a": 1}', '[parameters={}]', 'var *', '3 *', '"a":', 'type=', "\\'", '[[', ']]',
+             ', parameters={"p": [1, 2.5, null]}]', 'union[', 'option[', 'tuple[[', 'struct[["a"], [', 'categorical[type=',
+             'Name["a":', '[var *', '[2 *', '(int64', '{"k": ']
+
+
+def lk_soup(r):
+    """a random sequence of grammar tokens and fragments: mostly malformed, sometimes a type by accident"""
+    n = r.choice([1, 2, 2, 3, 3, 4, 5, 6, 8, 12])
+    sep = r.choice(['', ' ', ' ', None])
+    toks = [r.choice(LK_TOKENS) for _ in range(n)]
+    if sep is None:
+        return ''.join(t + r.choice(['', ' ']) for t in toks)
+    return sep.join(toks)
+
+
+LK_TOKEN_RE = re.compile(r'"(?:[^"\\\\]|\\\\.)*"|[A-Za-z_]+[0-9]*|[-+]?[0-9.]+(?:[eE][-+]?[0-9]+)?|\\s+|.', re.S)
+
+
+def lk_token_mutate(r, s):
+    """one edit on the token sequence of a derived string: delete / duplicate / swap / replace a token"""
+    toks = LK_TOKEN_RE.findall(s)
+    idx = [i for i, t in enumerate(toks) if not t.isspace()]
+    if not idx:
+        return s + 'x'
+    i = r.choice(idx)
+    c = r.randrange(5)
+    if c == 0:
+        del toks[i]
+    elif c == 1:
+        toks.insert(i, toks[i])
+    elif c == 2:
+        j = r.choice(idx)
+        toks[i], toks[j] = toks[j], toks[i]
+    elif c == 3:
+        toks[i] = r.choice(LK_TOKENS[:44])
+    else:
+        toks.insert(i, r.choice(LK_TOKENS[:44]) + r.choice(['', ' ']))
+    return ''.join(toks)
+
+
+def lark_stream(rng, tier):
+    """[(what, text)] distinct"""
+    out, seen = [], set()
+
+    def put(what, s):
+        if s and s not in seen:
+            try:
+                s.encode('utf-8')
+            except UnicodeEncodeError:
+                return
+            seen.add(s)
+            out.append((what, s))
+    if os.path.exists(LARK_STRINGS):
+        for l in open(LARK_STRINGS, encoding='utf-8'):
+            l = l.rstrip('\n')
+            if l.strip(' ') != '' or l:
+                put('fixed', l)
+    ngen, nws, nmut, nsoup = (900, 300, 600, 600) if tier == 'quick' else (12000, 4000, 8000, 8000)
+    for _ in range(ngen):
+        put('derived', lk_gen(rng, rng.randint(0, 4)))
+    for _ in range(nws):
+        put('whitespace', lk_whitespace(rng, lk_gen(rng, rng.randint(1, 3))))
+    for _ in range(nmut):
+        what, t = lk_mutate(rng, lk_gen(rng, rng.randint(0, 3)))
+        put('malformed:' + what if what != 'whitespace' else 'whitespace', t)
+    for k in range(nsoup):
+        put('malformed:tokens', lk_soup(rng) if k % 4 == 0 else lk_token_mutate(rng, lk_gen(rng, rng.randint(0, 3))))
+    return out
+
+
 # ===================================================================== numbers copyjson mishandles
 CATEG = ' '.join(str(x) for x in b'"categorical"')
 
@@ -718,7 +970,15 @@ def cases(rng, tier):
         tags.update(stats)
         out.append(C.Case('f%d' % i, 'formjson', [ts_sx(ts), bsx(text.encode('utf-8'))], [],
                           dict(nontrivial=len(stats) >= 2, tags=tags, kind='form', text=text, oddnum=odd_numbers_in_text(text))))
+    for i, (what, t) in enumerate(lark_stream(rng, tier)):
+        out.append(lark_case('L%d' % i, t.encode('utf-8'), what))
     return out
+
+
+def lark_case(cid, b, what):
+    """a type string for from_datashape / lark_parse (both modes)"""
+    return C.Case(cid, 'larkparse', [bsx(b)], [], dict(nontrivial=True, kind='lark', s=b,
+                                                       tags=dict(stream='lark-grammar', lark_what=what.split(':')[0])))
 
 
 def replay_cases(path, prefix=''):
@@ -744,7 +1004,9 @@ def replay_cases(path, prefix=''):
                     break
         ts, body = rest[:k + 1], rest[k + 1:].strip()
         n += 1
-        if op == 'describe':
+        if op == 'larkparse':
+            cases_.append(lark_case(prefix + cid, unb(sx_parse(ts)), 'replay'))
+        elif op == 'describe':
             extra = []
             if body.endswith(' novalid'):
                 body, extra = body[:-len(' novalid')].rstrip(), ['novalid']
@@ -793,7 +1055,7 @@ def run_lark(strings):
     if not strings:
         return []
     py = '/venv/bin/python' if os.path.exists('/venv/bin/python') else 'python3'
-    inp = '\n'.join(s.hex() for s in strings) + '\n'
+    inp = '\n'.join('x' + s.hex() for s in strings) + '\n'
     try:
         p = subprocess.run([py, LARK, C.REPO], input=inp, stdout=subprocess.PIPE, stderr=subprocess.PIPE, text=True,
                            timeout=1800)
@@ -898,6 +1160,119 @@ def lark_signature(s, res, feats):
     return None
 
 
+# ===================================================================== Lark.v against the repository's parser
+def hexb(x):
+    return bytes(int(t) for t in x).hex()
+
+
+def model_json(j):
+    """typerun's J -> the canonical value of larkvote.jtree"""
+    if j == 'null':
+        return None
+    if j == 'true':
+        return True
+    if j == 'false':
+        return False
+    h = j[0]
+    if h == 'i':
+        return ['i', j[1]]
+    if h == 'd':
+        # the model carries a non-integral number as its text, TreeToJson as float(text)
+        return ['d', repr(float(bytes(int(t) for t in j[1]).decode('ascii')))]
+    if h == 's':
+        return ['s', hexb(j[1])]
+    if h == 'a':
+        return ['a', [model_json(x) for x in j[1:]]]
+    if h == 'o':
+        return ['o', [[hexb(e[1]), model_json(e[2])] for e in j[1:]]]
+    raise ValueError('json tree: %r' % (j,))
+
+
+def model_tree(t):
+    """typerun's T -> the canonical tree of larkvote (Type.tree) in which ArrayType is written as a plain reg"""
+    h = t[0]
+    P = [[hexb(e[1]), model_json(e[2])] for e in t[1]]
+    ts = hexb(t[2])
+    if h == 'num':
+        return ['num', P, ts, bytes(int(x) for x in t[3]).decode('ascii')]
+    if h == 'unk':
+        return ['unk', P, ts]
+    if h in ('list', 'opt'):
+        return [h, P, ts, model_tree(t[3])]
+    if h == 'reg':
+        return ['reg', P, ts, t[3], model_tree(t[4])]
+    if h == 'rec':
+        keys = None if t[3] == 'none' else [hexb(k) for k in t[3][1:]]
+        return ['rec', P, ts, keys, [model_tree(x) for x in t[4]]]
+    if h == 'union':
+        return ['union', P, ts, [model_tree(x) for x in t[3]]]
+    raise ValueError('type tree: %r' % (h,))
+
+
+def oracle_tree(t):
+    """larkvote's tree with ArrayType(T, n) written the way the model writes it: a parameterless reg"""
+    h = t[0]
+    if h == 'array':
+        return ['reg', [], '', t[1], oracle_tree(t[2])]
+    if h in ('num', 'unk'):
+        return t
+    if h in ('list', 'opt'):
+        return [h, t[1], t[2], oracle_tree(t[3])]
+    if h == 'reg':
+        return ['reg', t[1], t[2], t[3], oracle_tree(t[4])]
+    if h in ('rec', 'union'):
+        return t[:-1] + [[oracle_tree(x) for x in t[-1]]]
+    raise ValueError('oracle tree: %r' % (h,))
+
+
+def tree_nodes(t):
+    h = t[0]
+    if h in ('num', 'unk'):
+        return 1
+    if h in ('rec', 'union'):
+        return 1 + sum(tree_nodes(x) for x in t[-1])
+    return 1 + tree_nodes(t[-1])
+
+
+def tree_sizes(t):
+    """all regular sizes in a canonical tree"""
+    h = t[0]
+    if h in ('num', 'unk'):
+        return []
+    if h in ('rec', 'union'):
+        return [n for x in t[-1] for n in tree_sizes(x)]
+    return ([int(t[3])] if h == 'reg' else []) + tree_sizes(t[-1])
+
+
+def lark_model_verdict(o, m):
+    """o: larkvote's result for one mode; m: typerun's larkparse answer for the same mode.
+    -> (verdict, detail); verdict: 'accept' | 'reject' (agreement) | 'deviation:<name>' (known, counted) | 'diff' | 'bad'"""
+    if m is None or m.startswith('bad'):
+        return 'bad', 'model runner: %s' % m
+    if m.startswith('err'):
+        if m != 'err value':
+            return 'bad', 'lark_parse ends with %r (only Err EValue stands for an exception)' % m
+        if not o.get('ok'):
+            return 'reject', ''
+        return 'diff', 'the parser accepts (%s), the model rejects' % o.get('str')
+    d = fields(sx_parse('(' + m[3:] + ')'))
+    mt = model_tree(d['tree'][0])
+    marr = d['array'] == ['1']
+    if d['lp'] != ['oob' if marr else 'ok']:
+        return 'bad', 'lark_parse and lark_parse_full disagree: lp %s array %s' % (d['lp'], d['array'])
+    if not o.get('ok'):
+        if o.get('exc') == 'TypeError' and any(not (-2 ** 63 <= n < 2 ** 63) for n in tree_sizes(mt)):
+            return 'deviation:size-beyond-int64', ''
+        return 'diff', 'the parser raises %s, the model accepts and prints %r' % (o.get('exc'), unb(d['printed'][0]))
+    ot = oracle_tree(o['tree'])
+    if ot != mt:
+        return 'diff', 'different types: parser %s, model %s (parser prints %r, model %r)' % (
+            json.dumps(ot), json.dumps(mt), o.get('str'), unb(d['printed'][0]))
+    if bool(o.get('arraytype')) != marr:
+        return 'diff', 'ArrayType occurs: parser %s, model %s' % (o.get('arraytype'), marr)
+    return 'accept', ot
+
+
 # ===================================================================== run
 def known_sig(sig):
     return sig is not None and any(k.get('signature') == sig and k.get('status') != 'fixed' for k in KNOWN17)
@@ -905,8 +1280,10 @@ def known_sig(sig):
 
 def run(cases, tier, rng):
     t0 = time.time()
+    lark_cases = [c for c in cases if c.meta.get('kind') == 'lark']
+    cases = [c for c in cases if c.meta.get('kind') != 'lark']
     lines = [c.line() for c in cases]
-    impl, errs = C.run_driver(lines, drv='typedrv', san=False)
+    impl, errs = C.run_driver(lines, drv='typedrv', san=False) if lines else ({}, {})
     C.log('implementation: %d cases in %.1fs' % (len(lines), time.time() - t0))
     if tier == 'thorough' and os.path.exists(os.path.join(C.SAN, 'typedrv')):
         t1 = time.time()
@@ -919,8 +1296,8 @@ def run(cases, tier, rng):
     findings = []
     corr = {'corr:type': True, 'corr:form-json': True, 'corr:fromjson-accepts': True, 'corr:depth-queries': True,
             'corr:element-types': True, 'corr:theorem-instances': True, 'corr:type-parse': True,
-            'corr:lark-parser': True}
-    stats = dict(roundtrip_outside_fragment=0, lark_strings=0, lark_ok=0, lark_fail={}, roundtrip_fail={}, model_parse={}, elems=0, ranges=0,
+            'corr:lark-parser': True, 'corr:lark-model': True}
+    stats = dict(lark_model={}, roundtrip_outside_fragment=0, lark_strings=0, lark_ok=0, lark_fail={}, roundtrip_fail={}, model_parse={}, elems=0, ranges=0,
                  accepted_forms=0, rejected_forms=0, san_cases=0)
 
     def add(kind, c, what, sig=None, extra=None, obl=None):
@@ -1152,10 +1529,13 @@ def run(cases, tier, rng):
             else:
                 add('bad', type_strings[s][0], 'model type_parse of %r prints back as %r' % (s, unb(d['printed'][0])), obl='corr:type-parse')
     stats['model_parse_strings'] = dict(total=len(strs), parsed_back_identically=mparse_ok)
-    lres = run_lark(strs)
+    lstrs = [c.meta['s'] for c in lark_cases]
+    all_strs = strs + lstrs
+    lres = run_lark(all_strs)
     if lres is None:
         corr['corr:lark-parser'] = False
-        add('bad', cases[0], 'the Lark parser voter could not be run', obl='corr:lark-parser')
+        corr['corr:lark-model'] = False
+        add('bad', (cases + lark_cases)[0], 'the Lark parser voter could not be run', obl='corr:lark-parser')
     else:
         for s, res in zip(strs, lres):
             stats['lark_strings'] += 1
@@ -1170,8 +1550,69 @@ def run(cases, tier, rng):
                 continue
             stats['lark_fail'][str(sig)] = stats['lark_fail'].get(str(sig), 0) + 1
             add('viol', c, 'from_datashape: the type string %r printed by the implementation does not come back: low-level %s, high-level %s'
-                % (s, res['ll'], res['hl']), sig=sig, obl='corr:lark-parser')
+                % (s, {k: v for k, v in res['ll'].items() if k != 'tree'}, {k: v for k, v in res['hl'].items() if k != 'tree'}),
+                sig=sig, obl='corr:lark-parser')
         C.log('parsers: %d strings in %.1fs (lark ok %d)' % (len(strs), time.time() - t2, stats['lark_ok']))
+        # ---------------- the Rocq model of the parser (Lark.v) against the parser, on the same strings and on the
+        # strings built from the grammar: same object tree or both reject, in both modes
+        t3 = time.time()
+        ml = []
+        for i, s in enumerate(all_strs):
+            ml.append('(m%d-0 larkparse 0 %s)' % (i, bsx(s)))
+            ml.append('(m%d-1 larkparse 1 %s)' % (i, bsx(s)))
+        lm = run_typerun(ml)
+        lms = stats['lark_model']
+        for src in ('printed', 'grammar'):
+            lms[src] = dict(strings=0, comparisons=0, agree_accept=0, agree_reject=0, accepted_in_some_mode=0, known_deviation={},
+                            differ=0, bad=0)
+        diffs = []
+        for i, s in enumerate(all_strs):
+            if i < len(strs):
+                c, src = lark_case('T%d' % i, s, 'printed'), 'printed'
+            else:
+                c, src = lark_cases[i - len(strs)], 'grammar'
+                for k2, v2 in (c.meta.get('tags') or {}).items():
+                    dist.setdefault(k2, {})
+                    dist[k2][str(v2)] = dist[k2].get(str(v2), 0) + 1
+            st = lms[src]
+            st['strings'] += 1
+            allok, nodes, some = True, 0, False
+            for mode, key in ((0, 'll'), (1, 'hl')):
+                st['comparisons'] += 1
+                try:
+                    v, detail = lark_model_verdict(lres[i][key], lm.get('m%d-%d' % (i, mode)))
+                except (ValueError, KeyError, IndexError, TypeError) as e:
+                    v, detail = 'bad', 'results not understood: %r' % (e,)
+                if v == 'accept':
+                    st['agree_accept'] += 1
+                    nodes = max(nodes, tree_nodes(detail))
+                    some = True
+                    add('agree', c, '')
+                elif v == 'reject':
+                    st['agree_reject'] += 1
+                    add('agree', c, '')
+                elif v.startswith('deviation:'):
+                    st['known_deviation'][v[10:]] = st['known_deviation'].get(v[10:], 0) + 1
+                    add('skip', c, '')
+                    allok = False
+                else:
+                    allok = False
+                    st['differ' if v == 'diff' else 'bad'] += 1
+                    diffs.append((len(s), s, key, detail))
+                    if v == 'diff':
+                        add('modeldiff', c, 'model of the type-string parser (Lark.v lark_parse_full) and from_datashape differ '
+                            '(high_level=%s) on %r: %s' % (bool(mode), s, detail), obl='corr:lark-model',
+                            extra=['parser: ' + json.dumps(lres[i][key])[:1500], 'model: ' + str(lm.get('m%d-%d' % (i, mode)))[:1500]])
+                    else:
+                        add('bad', c, 'model of the type-string parser: %s (high_level=%s, %r)' % (detail, bool(mode), s),
+                            obl='corr:lark-model')
+            if some:
+                st['accepted_in_some_mode'] += 1
+            if allok and some and nodes >= 2 and src == 'grammar':
+                distinct.add(c.body())
+        diffs.sort()
+        stats['lark_model_differences'] = [dict(string=d[1].decode('utf-8', 'replace'), mode=d[2], detail=d[3][:600]) for d in diffs[:25]]
+        C.log('parser model: %d strings x 2 modes in %.1fs: %s' % (len(all_strs), time.time() - t3, json.dumps(lms)))
 
     # keep the smallest representative per (kind, signature / first words)
     best = {}
@@ -1180,5 +1621,5 @@ def run(cases, tier, rng):
         if key not in best or f['size'] < best[key]['size']:
             best[key] = f
     fl = sorted(best.values(), key=lambda f: (f.get('no_input', False), f['size']))
-    return dict(findings=fl, corr_obligations=corr, evaluations=len(cases) + len(strs), distinct_nontrivial=len(distinct),
+    return dict(findings=fl, corr_obligations=corr, evaluations=len(cases) + len(strs) + len(lark_cases), distinct_nontrivial=len(distinct),
                 samples=samples, distribution=dist, verdicts=verd, extra=dict(c17=stats))
